@@ -41,6 +41,14 @@ def $function_name(*args, **kwargs):
             arg  = na
             break
 
+    # a traced argument decides, wherever it stands: minimum(c, x) with a polynomial constant c
+    # and a traced x is recorded, not evaluated by the class of c
+    for na,a in enumerate(args):
+        if isinstance(a, Function) and hasattr(a.__class__, '$function_name'):
+            case = 1
+            arg  = na
+            break
+
     if case==1:
         return getattr(args[arg].__class__, '$function_name')(*args, **kwargs)
 
